@@ -32,7 +32,7 @@ def opaque_math(name, t):
     return nnmod.apply_elem(name, t)
 
 
-def am_job(job_id, env_name="tsp", n=3, norm="batch", compositions=("XY", "YX", "XXY"), steps=None, train_mode=False, source_filter=None):
+def am_job(job_id, env_name="tsp", n=3, norm="batch", compositions=("XY", "YX", "XXY"), steps=None, train_mode=False, num_starts=0, source_filter=None):
     E = explore.EXP
     ctx = core.Ctx(job_id)
     w = world.make_world(source_filter=source_filter)
@@ -40,17 +40,18 @@ def am_job(job_id, env_name="tsp", n=3, norm="batch", compositions=("XY", "YX", 
     old = (T.SOFTMAX_HOOK, T.MATH_HOOK, T.MUL_HOOK)
     T.SOFTMAX_HOOK, T.MATH_HOOK, T.MUL_HOOK = opaque_softmax, opaque_math, nnmod.opaque_mul
     SC.OPAQUE_MUL[0] = True
-    ctx.bounds = {"policy": "AttentionModelPolicy", "env": env_name, "n": n, "normalization": norm, "embed_dim": 8, "heads": 1, "layers": 1, "compositions": list(compositions)}
+    ctx.bounds = {"policy": "AttentionModelPolicy", "env": env_name, "n": n, "num_starts": num_starts, "normalization": norm, "embed_dim": 8, "heads": 1, "layers": 1, "compositions": list(compositions)}
     ctx.stubs.update(["nn.Linear / norm layers (eval mode) / scaled_dot_product_attention / softmax / activations: uninterpreted functions on the documented slice",
                       "parameters: opaque constants; symbolic*symbolic: commutative uninterpreted function"])
     ctx.assumptions.add("policy in eval mode (as in inference); forced action prefixes (symbolic actions, identical for X in every composition)")
 
     def cexb(E_, neg):
         return [{"kind": "script", "path": core.ROOT + "/vf/torch_side", "module": "am_side", "func": "run_am", "model_kind": "plain", "mode": "C14",
-                 "params": {"env": env_name, "n": n, "norm": norm, "train_mode": train_mode}}]
+                 "params": {"env": env_name, "n": n, "norm": norm, "train_mode": train_mode, "num_starts": num_starts}}]
 
     try:
         pol = w.load("rl4co.models.zoo.am.policy")
+        ops = w.load("rl4co.utils.ops")
         env = sp.make_env(w, n, None)
         nnmod.reset_ids()
         policy = pol.AttentionModelPolicy(env_name=env_name, embed_dim=8, num_heads=1, num_encoder_layers=1, feedforward_hidden=8, normalization=norm)
@@ -63,11 +64,14 @@ def am_job(job_id, env_name="tsp", n=3, norm="batch", compositions=("XY", "YX", 
         def harness():
             src = EV.Src(E, ctx)
             inst = sp.instance(src, 2, n, None)  # rows: X (0), Y (1)
-            acts = [[z3.Int(f"ax_{t}"), z3.Int(f"ay_{t}")] for t in range(Tn)]
+            S = max(num_starts, 1)
+            # forced actions per (step, start, instance): identical for X in every batch composition
+            acts = [[[z3.Int(f"ax_{t}_{s_}"), z3.Int(f"ay_{t}_{s_}")] for s_ in range(S)] for t in range(Tn + 1)]
             NA = sp.n_actions(n, None)
-            for row in acts:
-                for a in row:
-                    E.assume(z3.And(a >= 0, a < NA))
+            for step_ in acts:
+                for row in step_:
+                    for a in row:
+                        E.assume(z3.And(a >= 0, a < NA))
 
             def build(order):
                 """order: string over {X,Y}: batch composition"""
@@ -75,12 +79,19 @@ def am_job(job_id, env_name="tsp", n=3, norm="batch", compositions=("XY", "YX", 
                 td = TensorDict({k: T.Tensor(np.stack([v.a[i] for i in idx]), v.dtype) for k, v in inst.inputs.items()}, batch_size=[len(idx)])
                 td = env.reset(td)
                 hidden, _ = policy.encoder(td)
-                td, _, cache = policy.decoder.pre_decoder_hook(td, env, hidden, 0)
+                if num_starts > 1:
+                    # multi-start decoding as in DecodingStrategy.pre_decoder_hook: replicate the state (row = start * B + instance),
+                    # force one start action per replica, step, then let the decoder regroup its cache
+                    td = ops.batchify(td, num_starts)
+                    td.set("action", T.Tensor(np.array([acts[Tn][s_][i] for s_ in range(S) for i in idx], dtype=object), T.int64))
+                    td = env.step(td)["next"]
+                    E.obligations = []
+                td, _, cache = policy.decoder.pre_decoder_hook(td, env, hidden, num_starts)
                 outs = []
                 for t in range(Tn):
-                    logits, mask = policy.decoder(td, cache, 0)
+                    logits, mask = policy.decoder(td, cache, num_starts)
                     outs.append((logits, mask))
-                    td.set("action", T.Tensor(np.array([acts[t][i] for i in idx], dtype=object), T.int64))
+                    td.set("action", T.Tensor(np.array([acts[t][s_][i] for s_ in range(S) for i in idx], dtype=object), T.int64))
                     td = env.step(td)["next"]
                     E.obligations = []
                 return outs
@@ -94,16 +105,20 @@ def am_job(job_id, env_name="tsp", n=3, norm="batch", compositions=("XY", "YX", 
                         raise
                     ctx.prove(E, f"[{env_name} {norm}] batch composition {comp} must not raise ({type(e).__name__}: {str(e)[:60]})", False, cexb)
                     continue
+                Bc = len(comp)
                 for pos, c in enumerate(comp):
                     if c != "X":
                         continue
                     for t in range(Tn):
                         ls, ms = solo[t]
                         lb, mb = res[t]
-                        same = all_([s_eq(nnmod.rl(lb.a[pos, j]), nnmod.rl(ls.a[0, j])) for j in range(ls.shape[-1])])
-                        ctx.prove(E, f"[{env_name} n={n} norm={norm}] step {t}: logits of X at position {pos} of batch {comp} equal its logits when decoded alone", same, cexb)
-                        ctx.prove(E, f"[{env_name} n={n} norm={norm}] step {t}: mask of X at position {pos} of batch {comp} equals its solo mask",
-                                  all_([s_eq(x, y) for x, y in zip(mb.a[pos], ms.a[0])]), cexb)
+                        for s_ in range(S):
+                            rb, rs = s_ * Bc + pos, s_  # replicated rows: start * B + instance
+                            tag = f" start {s_}" if num_starts > 1 else ""
+                            same = all_([s_eq(nnmod.rl(lb.a[rb, j]), nnmod.rl(ls.a[rs, j])) for j in range(ls.shape[-1])])
+                            ctx.prove(E, f"[{env_name} n={n} norm={norm}] step {t}{tag}: logits of X at position {pos} of batch {comp} equal its logits when decoded alone", same, cexb)
+                            ctx.prove(E, f"[{env_name} n={n} norm={norm}] step {t}{tag}: mask of X at position {pos} of batch {comp} equals its solo mask",
+                                      all_([s_eq(x, y) for x, y in zip(mb.a[rb], ms.a[rs])]), cexb)
             ctx.states += 1
             ctx.transitions += Tn * (1 + len(compositions))
 
